@@ -66,7 +66,7 @@ def _tags_of(buf, pytree_obs):
     return tags, written, aligned
 
 
-def _case(ctx, cap, ns, pytree_obs, idx):
+def _case(ctx, cap, ns, pytree_obs, idx, full_batches=False):
     obs_space, act_space = _spaces(pytree_obs)
     E = len(ns)
 
@@ -74,11 +74,18 @@ def _case(ctx, cap, ns, pytree_obs, idx):
     def add(buf, tag):
         return buf.add(**_row(tag, pytree_obs))
 
+    @eqx.filter_jit
+    def add_many(buf, tags):
+        return jax.lax.scan(lambda b, t: (b.add(**_row(t, pytree_obs)), None), buf, tags)[0]
+
     bufs = []
     for e, n in enumerate(ns):
         b = ReplayBuffer(cap, obs_space, act_space, CountState(jnp.array(0, dtype=int)))
-        for i in range(n):
-            b = add(b, e * 100000 + i + 1)
+        if n > 64:
+            b = add_many(b, e * 100000 + 1 + jnp.arange(n))
+        else:
+            for i in range(n):
+                b = add(b, e * 100000 + i + 1)
         bufs.append(b)
     stacked = bufs[0] if E == 1 else jax.tree.map(lambda *xs: jnp.stack(xs), *bufs)
 
@@ -95,7 +102,9 @@ def _case(ctx, cap, ns, pytree_obs, idx):
     flat_tags = tags.reshape(-1)
     if stored_total > 0:
         for _ in range(ctx.budget(6, 24)):
-            bs = int(ctx.rng.integers(1, stored_total + 1))
+            # large sparse buffers: batches as large as the stored count leave no slack for a sampler
+            # that gives unwritten slots a tiny but non-zero weight
+            bs = stored_total if full_batches else int(ctx.rng.integers(1, stored_total + 1))
             key = jr.key(int(ctx.rng.integers(0, 2**31)))
             batch = stacked.sample(bs, key=key)
             bt, bw, ba = _tags_of(batch, pytree_obs)
@@ -149,3 +158,10 @@ def run(ctx):
             _case(ctx, cap, ns, bool(rng.random() < 0.5), idx)
             ctx.gc(4)
             idx += 1
+    # large, partly filled buffers sampled with batch size = number of stored transitions
+    for cap, ns in ctx.budget([(4096, [2048]), (2048, [1024, 300])],
+                              [(4096, [2048]), (2048, [1024, 300]), (8192, [4096]), (4096, [4095]), (1024, [512, 512, 100])]):
+        _case(ctx, cap, ns, False, idx, full_batches=True)
+        ctx.count("large-sparse-buffers")
+        ctx.gc(1)
+        idx += 1
